@@ -106,14 +106,23 @@ impl<'n> TryFromNode<'n> for Field {
             } else {
                 ComponentKind::Any
             };
-            let ref_node = doc.find_node_by_xml_name(&node, xml_name, namespace.as_deref(), kind);
-            let ref_node = ref_node
-                .as_ref()
-                .ok_or_else(|| WriterError::NodeNotFound(ref_name.to_string()))?;
-
             let module = namespace.as_ref().map(|n| n.rust_mod_name.clone());
 
-            let xml_name = ref_node.xml_name().ok_or(WriterError::InvalidReference)?;
+            // an element reference only needs the element to exist: it is not built here, so an
+            // element may refer to itself (directly or through other elements) and to elements
+            // declared later
+            let ref_node;
+            let xml_name = if kind == ComponentKind::Element {
+                if !doc.global_component_exists(&node, xml_name, namespace.as_deref(), kind) {
+                    return Err(WriterError::NodeNotFound(ref_name.to_string()));
+                }
+                xml_name
+            } else {
+                ref_node = doc
+                    .find_node_by_xml_name(&node, xml_name, namespace.as_deref(), kind)
+                    .ok_or_else(|| WriterError::NodeNotFound(ref_name.to_string()))?;
+                ref_node.xml_name().ok_or(WriterError::InvalidReference)?
+            };
             let rust_type = RustFieldType::Other(OtherRustType {
                 name: xml_name_to_rust_name(xml_name),
                 module,
